@@ -35,7 +35,13 @@ fn bump() {
 unsafe impl GlobalAlloc for Counting {
     unsafe fn alloc(&self, l: Layout) -> *mut u8 {
         bump();
-        System.alloc(l)
+        // fresh (not zero-requested) memory is poisoned: a buffer that the library hands to a
+        // caller's reader "uninitialised" then differs visibly from a zeroed one
+        let p = System.alloc(l);
+        if !p.is_null() && l.size() <= (4 << 20) {
+            core::ptr::write_bytes(p, 0xA5, l.size());
+        }
+        p
     }
     unsafe fn dealloc(&self, p: *mut u8, l: Layout) {
         System.dealloc(p, l)
@@ -306,6 +312,17 @@ macro_rules! variant {
                 fn boxed_clone(&self) -> G {
                     Box::new(GObj(self.0.clone()))
                 }
+                fn boxed_clone_from_state(&self, _dst: &GenState) -> Option<G> {
+                    #[cfg(fast_tlsh_verif)]
+                    {
+                        use tlsh::verif_hooks::VerifGeneratorHook;
+                        let mut g = Gen::verif_from_state(&_dst.buckets, _dst.len, _dst.tail, _dst.tail_len, &_dst.checksum);
+                        g.clone_from(&self.0);
+                        return Some(Box::new(GObj(g)));
+                    }
+                    #[allow(unreachable_code)]
+                    None
+                }
                 fn boxed_clone_from(&self, pre: &[u8]) -> G {
                     let mut dst = Gen::new();
                     dst.update(pre);
@@ -510,6 +527,38 @@ macro_rules! variant {
                             Ok(r) => r,
                             Err(e) => SerRecord::Other(format!("error: {}", e)),
                         });
+                    }
+                    #[allow(unreachable_code)]
+                    None
+                }
+                fn mock_de_allocs(&self, _script: &vcheck::mockserde::DeScript) -> Option<(bool, u64)> {
+                    #[cfg(feature = "t-serde")]
+                    {
+                        use serde::Deserialize;
+                        let hint = Cell::new("");
+                        let d = vcheck::mockserde::MockDeserializer::new(_script, &hint);
+                        vcheck::mockserde::QUIET_ERRORS.with(|q| q.set(true));
+                        let before = alloc_count();
+                        let r = T::deserialize(d);
+                        let used = alloc_count() - before;
+                        vcheck::mockserde::QUIET_ERRORS.with(|q| q.set(false));
+                        return Some((r.is_ok(), used));
+                    }
+                    #[allow(unreachable_code)]
+                    None
+                }
+                fn mock_de_in_place(&self, _script: &vcheck::mockserde::DeScript, _initial: &[u8]) -> Option<Result<H, String>> {
+                    #[cfg(feature = "t-serde")]
+                    {
+                        use serde::Deserialize;
+                        let hint = Cell::new("");
+                        let d = vcheck::mockserde::MockDeserializer::new(_script, &hint);
+                        let mut place = match T::try_from(_initial) {
+                            Ok(p) => p,
+                            Err(_) => return None,
+                        };
+                        let r = T::deserialize_in_place(d, &mut place).map(|()| bx(place)).map_err(|e| e.to_string());
+                        return Some(r.map_err(|e| format!("{} [asked {}]", e, hint.get())));
                     }
                     #[allow(unreachable_code)]
                     None
